@@ -9,6 +9,7 @@ pub mod c06;
 pub mod c13;
 pub mod c14;
 pub mod c07;
+pub mod c03;
 pub mod c20;
 
 pub fn run(prop: &str, ctx: &mut Ctx) -> Option<Report> {
@@ -21,6 +22,7 @@ pub fn run(prop: &str, ctx: &mut Ctx) -> Option<Report> {
         "C13" => Some(c13::run(ctx)),
         "C14" => Some(c14::run(ctx)),
         "C07" => Some(c07::run(ctx)),
+        "C03" => Some(c03::run(ctx)),
         "C20" => Some(c20::run(ctx)),
         _ => None,
     }
